@@ -21,7 +21,7 @@ ASSUMPTIONS = [
     "message load per link is the constant 1 so that route * load stays linear; all other parameters are symbolic reals in [0, 2^20] (hosting costs: 0, or in [1, 2^20], or in [-2^20, -1] on the slots where the sign is a choice)",
     "pulp's math.isfinite check on coefficients is shimmed to accept symbolic numbers",
 ]
-BOUNDS = {"quick": "oilp_cgdp on the constraints hyper-graph of a pair and of chain-3 with 2 agents; ilp_fgdp on the factor graph of a pair with 2 agents",
+BOUNDS = {"quick": "oilp_cgdp on the constraints hyper-graph of a pair, of chain-3 and of a ternary constraint (one hyper-link with three ends) with 2 agents; ilp_fgdp on the factor graph of a pair with 2 agents",
           "thorough": "quick + 3 agents on the pair, triangle with 2 agents"}
 OUTSIDE = "more than 3 computations x 3 agents, symbolic message loads, the solve step"
 CAP_S = {"quick": 900, "thorough": 5400}
@@ -39,6 +39,8 @@ def jobs(tier):
     # two constraints over the same pair of variables (two links between the two computations)
     out.append({"name": "oilp_cgdp-pair-a2-asymroutes", "method": "oilp_cgdp", "algo": "dsa", "struct": "pair", "agents": 2,
                 "asym_routes": True})
+    # a hyper-link with three ends (ternary constraint)
+    out.append({"name": "oilp_cgdp-ternary-a2", "method": "oilp_cgdp", "algo": "dsa", "struct": "ternary", "agents": 2})
     out.append({"name": "oilp_cgdp-pair_dbl-a2", "method": "oilp_cgdp", "algo": "dsa", "struct": "pair_dbl", "agents": 2})
     if tier == "thorough":
         out += [{"name": "oilp_cgdp-pair-a3", "method": "oilp_cgdp", "algo": "dsa", "struct": "pair", "agents": 3},
